@@ -248,12 +248,14 @@ theorem replay_faithful_db (sel : Selector) (db : List DbRow) (huniq : ∀ r ∈
     obtain ⟨d, hd, rfl⟩ := List.mem_map.1 hr
     by_cases hm : d ∈ recordDb ri id0 St.default h
     · exact absurd (by rw [← record_view sel ri hsel]; exact List.mem_map.2 ⟨d, hm, rfl⟩) hn
-    · exact hothers d hd hm
+    · rcases hothers d hd hm with h1 | h1
+      · exact Or.inl (view_unselected sel d h1)
+      · exact Or.inr (by simpa using h1)
   · exact hagree
   · intro r hr r' hr' hid
     obtain ⟨d, hd, rfl⟩ := List.mem_map.1 hr
     obtain ⟨d', hd', rfl⟩ := List.mem_map.1 hr'
-    rw [huniq d hd d' hd' hid]
+    rw [huniq d hd d' hd' (by simpa using hid)]
 
 /-- non-vacuity: two ECUs in one database, selection by name and by a property -/
 example :
